@@ -9,9 +9,10 @@ a remote that is registered is answered; it is deregistered only by its prune ti
   deadline (`delay.reset(timeout_at)`).
 * a prune timeout is scheduled when a remote attaches (`WriteTaskMessage::Remote` → `AddPruneTimeout`) and when an
   explicit unlink removes its LAST link (`Links::remove` → `TriggerUnlink.schedule_prune`).
-* `PruneRemote(id)` → `remove_remote_if_idle`: the remote is removed (`DisconnectionReason::RemoteTimedOut`, its channel
-  closed) iff it has no link at that moment. An entry is never withdrawn: a remote that linked and unlinked again before
-  an OLD entry of its own fires is removed by that old entry (`idle`/`sched` are ghosts that make this visible).
+* `PruneRemote(id)` → unless a LATER timeout is still queued for the same remote (`is_queued`, the repair 8d5e4f1 of
+  C03-N1: an entry is never withdrawn, so an old entry of a remote that linked and unlinked again used to remove it):
+  `remove_remote_if_idle`: the remote is removed (`DisconnectionReason::RemoteTimedOut`, its channel closed) iff it has
+  no link at that moment (`idle`/`sched` are ghosts: since when link-less, when scheduled).
 * requests: `link` of a registered remote → `linked` (every time); of a removed remote → nothing ("No remote with ID");
   `unlink` of a linked lane → `unlinked`; a sync answered by the lane → implicit `linked` if needed, the event, `synced`;
   for a removed remote the response is discarded.
@@ -51,9 +52,10 @@ def idleOf (s : St) (r : Nat) : Nat := ((s.idle.find? (fun p => p.1 == r)).map (
 def push (s : St) (r : Nat) : St :=
   { s with queue := s.queue ++ [(r, s.now + s.D)], idle := (r, s.now) :: s.idle, sched := (r, s.now) :: s.sched }
 
-/-- `WriteTaskEvent::PruneRemote(r)` at the instant `d`: `remove_remote_if_idle` -/
+/-- `WriteTaskEvent::PruneRemote(r)` at the instant `d`: `if !streams.prune_pending(&r) { remove_remote_if_idle(r) }`
+— a fired timeout is ignored while a later one is queued for the same remote (`PruneRemotes::is_queued`) -/
 def fire (s : St) (r d : Nat) (rest : List (Nat × Nat)) : St × List (Nat × Ev) :=
-  if s.reg.contains r && linkless s r then
+  if s.reg.contains r && linkless s r && !(rest.any (fun e => e.1 == r)) then
     ({ s with now := max s.now d, queue := rest, reg := s.reg.filter (fun x => !(x == r)) }, [(r, .closed d)])
   else ({ s with now := max s.now d, queue := rest }, [])
 
